@@ -348,8 +348,43 @@ func (p *prober) accept(v *value, g string) {
 			for _, f := range diffSession(v.Sess, ss) {
 				p.violate("roundtrip: field-changed-SessionState."+f, "seal+open (LoadSession) changed field "+f, w("LoadSession", "field differs"))
 			}
+			// what a caller does with the opened session (sso-proxy updates it in place after a refresh or a
+			// revalidation) must not change what the same sealed value opens to the next time (added after
+			// seeded change C02l - LoadSession remembering opened cookies by their string and handing out the
+			// same *SessionState again)
+			scribble(ss)
+			again, err2, pan2 := p.loadSession(header, true)
+			if pan2 != nil || err2 != nil || again == nil {
+				p.violate("roundtrip: genuine-rejected-loadsession second-open", fmt.Sprintf("a genuine session cookie does not load the second time (err=%v panic=%v)", err2, pan2), w("LoadSession", fmt.Sprint(err2)))
+			} else {
+				p.cnt["reopened_after_caller_changed_the_result"]++
+				for _, f := range diffSession(v.Sess, again) {
+					p.violate("roundtrip: second-open-reflects-callers-changes field=SessionState."+f, "the same sealed cookie opened again (LoadSession) after the caller changed the first result: field "+f+" differs from what was sealed", w("LoadSession", "field differs on second open"))
+				}
+			}
 		}
 	}
+	if ss, err, pan := p.unmarshalSession(g); pan == nil && err == nil && ss != nil {
+		scribble(ss)
+		if again, err2, pan2 := p.unmarshalSession(g); pan2 == nil && err2 == nil && again != nil {
+			p.cnt["reopened_after_caller_changed_the_result"]++
+			for _, f := range diffSession(v.Sess, again) {
+				p.violate("roundtrip: second-open-reflects-callers-changes field=SessionState."+f, "the same sealed value opened again (UnmarshalSession) after the caller changed the first result: field "+f+" differs from what was sealed", w("UnmarshalSession", "field differs on second open"))
+			}
+		}
+	}
+}
+
+// scribble changes every field of an opened session the way a caller may.
+func scribble(s *sessions.SessionState) {
+	s.Email, s.User = "scribbled@other.test", "scribbled"
+	s.AccessToken, s.RefreshToken = "scribbled-at", "scribbled-rt"
+	s.ProviderSlug, s.AuthorizedUpstream = "scribbled", "scribbled.test"
+	s.Groups = append(s.Groups[:0:0], "scribbled-group")
+	s.LifetimeDeadline = s.LifetimeDeadline.Add(9 * time.Hour)
+	s.RefreshDeadline = s.RefreshDeadline.Add(9 * time.Hour)
+	s.ValidDeadline = s.ValidDeadline.Add(9 * time.Hour)
+	s.GracePeriodStart = s.GracePeriodStart.Add(9 * time.Hour)
 }
 
 // absentCookie checks the no-cookie answers.
